@@ -147,3 +147,20 @@ pub fn case_valve(rd: &mut Rd) -> R<String> {
     };
     Ok(run_scripted(script, |r: &valve::Response| canon(r), || valve::query(&addr(port), engine, gather, ts)))
 }
+
+pub fn case_quake(rd: &mut Rd) -> R<String> {
+    use gamedig::protocols::quake;
+    let port = rd.u16()?;
+    let v = rd.u8()?;
+    let ts = rd_tsettings(rd)?;
+    let script = rd_script(rd)?;
+    let ts = match ts {
+        Ok(t) => t,
+        Err(e) => return Ok(format!("{e}|")),
+    };
+    Ok(match v {
+        1 => run_scripted(script, |r: &quake::Response<quake::one::Player>| canon(r), || quake::one::query(&addr(port), ts)),
+        2 => run_scripted(script, |r: &quake::Response<quake::two::Player>| canon(r), || quake::two::query(&addr(port), ts)),
+        _ => run_scripted(script, |r: &quake::Response<quake::two::Player>| canon(r), || quake::three::query(&addr(port), ts)),
+    })
+}
